@@ -495,6 +495,7 @@ func (c *conn) pump(ctx context.Context, gone bool) {
 				if !c.send(ctx, c.frame(old)) {
 					return
 				}
+				c.call.Sent = append(c.call.Sent, old.RV)
 			}
 			continue
 		}
